@@ -1,0 +1,48 @@
+// Copyright 2020-2025 Buf Technologies, Inc.
+//
+// Licensed under the Apache License, Version 2.0 (the "License");
+// you may not use this file except in compliance with the License.
+// You may obtain a copy of the License at
+//
+//      http://www.apache.org/licenses/LICENSE-2.0
+//
+// Unless required by applicable law or agreed to in writing, software
+// distributed under the License is distributed on an "AS IS" BASIS,
+// WITHOUT WARRANTIES OR CONDITIONS OF ANY KIND, either express or implied.
+// See the License for the specific language governing permissions and
+// limitations under the License.
+
+//go:build verif
+
+package bufimage
+
+// Contracts for the gocv verifier (see /verif/DESIGN.md). Comment-only.
+//
+// C10: ls-files lists the targets plus everything they (transitively) import; an import nobody provides is an error.
+//
+// Accessor purity (trusted): an ImageFileInfo is an immutable value; Imports() is a deterministic function of it
+// (the fastscan imports; that they equal the compiler's imports is a stated assumption of C10).
+//@ trusted pure interface ImageFileInfo
+//
+// One DFS step. resultPaths only grows; every path ADDED by a successful call is import-closed in the final set
+// (its file is known, its Imports() succeeded, and each import is a known path that is in the set); nothing is added
+// that is not the start file or an import of an added file. A missing import is an error, never skipped.
+//@ func imageFileInfosWithOnlyTargetsAndTargetImportsRec(imageFileInfo, pathToImageFileInfo, resultPaths) (err)
+//@   property C10
+//@   modifies resultPaths
+//@   reveal h_closedAt, h_imports
+//@   requires keyed: forall k string :: k in pathToImageFileInfo ==> pathToImageFileInfo[k] != nil && pathToImageFileInfo[k].Path() == k
+//@   requires start-known: imageFileInfo != nil && imageFileInfo.Path() in pathToImageFileInfo && pathToImageFileInfo[imageFileInfo.Path()] == imageFileInfo
+//@   requires resultPaths != nil
+//@   ensures monotone: forall p string :: p in old(resultPaths) ==> p in resultPaths
+//@   ensures start-included: imageFileInfo.Path() in resultPaths
+//@   ensures added-are-closed: err == nil ==> (forall p string :: p in resultPaths && !(p in old(resultPaths)) ==> h_closedAt(pathToImageFileInfo, dom(resultPaths), p))
+//@   ensures no-junk: forall p string :: p in resultPaths && !(p in old(resultPaths)) && p != imageFileInfo.Path() ==> (exists q string :: q in resultPaths && !(q in old(resultPaths)) && q in pathToImageFileInfo && h_imports(pathToImageFileInfo[q], p))
+//@   ensures missing-import-is-error: (second(imageFileInfo.Imports()) != nil || (exists j int :: 0 <= j && j < len(first(imageFileInfo.Imports())) && !(first(imageFileInfo.Imports())[j] in pathToImageFileInfo))) && !(imageFileInfo.Path() in old(resultPaths)) ==> err != nil
+//@   canary ensures err != nil
+//@   canary ensures err == nil
+//@   loop 0 invariant resultPaths != nil && path in resultPaths && !(path in old(resultPaths))
+//@   loop 0 invariant forall p string :: p in old(resultPaths) ==> p in resultPaths
+//@   loop 0 invariant forall j int :: 0 <= j && j < $i ==> imports[j] in pathToImageFileInfo && imports[j] in resultPaths
+//@   loop 0 invariant forall p string :: p in resultPaths && !(p in old(resultPaths)) && p != path ==> h_closedAt(pathToImageFileInfo, dom(resultPaths), p)
+//@   loop 0 invariant forall p string :: p in resultPaths && !(p in old(resultPaths)) && p != path ==> (exists q string :: q in resultPaths && !(q in old(resultPaths)) && q in pathToImageFileInfo && h_imports(pathToImageFileInfo[q], p))
